@@ -696,6 +696,20 @@ func (e *Env) call(x *ECall) Val {
 			efail("upd sorts: key %s/%s value %s/%s", k.T.Sort, ks, v.T.Sort, vs)
 		}
 		return Val{T: tStore(a.T, k.T, v.T)}
+	case "called":
+		// called("<selector>#k"): that call of the function was executed on this path
+		// (false when the function makes no such call)
+		if e.res == nil {
+			efail("called() is only available in ensures clauses and sites of a verified function")
+		}
+		ks, ok := x.Args[0].(*EStr)
+		if !ok {
+			efail("called() expects a string selector")
+		}
+		if v, ok := e.res("reach:"+ks.Val, 0); ok {
+			return v
+		}
+		return Val{T: tFalse, GT: boolT}
 	case "res":
 		// res("<selector>#k") / res("<selector>#k", i): result i of that call of the function
 		if e.res == nil {
